@@ -15,7 +15,8 @@
     element plus, for hydrogen, the implicit hydrogens). *)
 From Coq Require Import List NArith ZArith Bool.
 From SK Require Import lib.Tok lib.LGraph model.C03_Model proof.C03_Spec proof.C03_Proof proof.C03_Glue proof.C03_Backward
-                       proof.C03_ExplicitH.
+                       proof.C03_ExplicitH proof.C03_ExplicitShape proof.C03_Expand
+                       proof.C03_Link.
 Import ListNotations.
 Local Open Scope Z_scope.
 
@@ -191,6 +192,22 @@ Theorem C03_explicitH_partial : forall (T T' : its) (ms : list (N * N)),
 Proof. exact explicit_h_accounting. Qed.
 Print Assumptions C03_explicitH_partial.
 
+(** the exact shape of what _explicit_h returns, given its list of migrations [ms] (proof/C03_Spec.v: [new_edges],
+    [new_nodes], [occurrences]): the old edge list followed by one donor-H bond (1,0) and one H-recipient bond (0,1) per
+    migration; the old atoms followed by the new H atoms (fresh ids max+1, max+2, ...), each labelled as a plain H; every
+    old atom's reactant-side / product-side hydrogen count lowered by the number of times it donates / receives *)
+Theorem C03_explicitH_shape : forall (T T' : its) (ms : list (N * N)),
+  NoDup (node_ids T) -> explicit_h T = Some (T', ms) ->
+  gedges T' = gedges T ++ new_edges (N.succ (max_id T)) ms /\
+  node_ids T' = node_ids T ++ map fst (new_nodes (N.succ (max_id T)) ms) /\
+  (forall (k : N) (a : inode), In (k, a) (new_nodes (N.succ (max_id T)) ms) -> label T' k = Some H_inode) /\
+  (forall (n : N) (a : inode), label T n = Some a ->
+     exists a' : inode, label T' n = Some a' /\
+       a_hc (iG a') = a_hc (iG a) - occurrences n (map fst ms) /\
+       a_hc (iH a') = a_hc (iH a) - occurrences n (map snd ms)).
+Proof. exact explicit_h_shape. Qed.
+Print Assumptions C03_explicitH_shape.
+
 (** gluing followed by _explicit_h: a balanced rule still yields a balanced reaction whose reactant side has the
     substrate's element counts and, between substrate atoms, exactly the substrate's bonds *)
 Theorem C03_explicitH_conserve : forall (host : hostg) (rc : its) (m : mapping) (T T' : its) (ms : list (N * N)),
@@ -202,3 +219,40 @@ Theorem C03_explicitH_conserve : forall (host : hostg) (rc : its) (m : mapping) 
   (forall a b : N, In a (node_ids host) -> In b (node_ids host) -> bondG T' a b = adj host a b).
 Proof. exact explicit_h_conserve. Qed.
 Print Assumptions C03_explicitH_conserve.
+
+(** the explicit path starts from the hydrogen-expanded substrate (h_to_explicit on the atoms of the kept match): the
+    expansion only re-writes implicit hydrogens as explicit H atoms *)
+Theorem C03_expand_host : forall (g : hostg) (nodes : list N), NoDup (node_ids g) ->
+  (forall e : N, elem_count e (mol_of_host (h_to_explicit g nodes)) = elem_count e (mol_of_host g)) /\
+  total_charge (mol_of_host (h_to_explicit g nodes)) = total_charge (mol_of_host g) /\
+  (forall a b : N, In a (node_ids g) -> In b (node_ids g) -> adj (h_to_explicit g nodes) a b = adj g a b) /\
+  (forall (n : N) (a : nattr), label g n = Some a ->
+     exists a' : nattr, label (h_to_explicit g nodes) n = Some a' /\ set_hc a' 0 = set_hc a 0) /\
+  NoDup (node_ids (h_to_explicit g nodes)).
+Proof. exact h_to_explicit_accounting. Qed.
+Print Assumptions C03_expand_host.
+
+(** the explicit path composed (expand, glue along a re-match, _explicit_h): the reactant side of the result has the
+    substrate's element counts and charge and, between substrate atoms, exactly the substrate's bonds; a balanced
+    rule gives a balanced reaction.  ([match_rcb] of the re-match on the expanded host is the premise that stands for
+    _get_explicit_map / VF2; it is evaluated by the correspondence on every re-match.) *)
+Theorem C03_explicit_path : forall (host : hostg) (nodes : list N) (rc : its) (m : mapping) (T T' : its) (ms : list (N * N)),
+  wf_hostb host = true -> wf_hostb (h_to_explicit host nodes) = true -> wf_rcb rc = true ->
+  match_rcb (h_to_explicit host nodes) rc m = true -> glue (h_to_explicit host nodes) rc m = Some T ->
+  explicit_h T = Some (T', ms) ->
+  (forall e : N, elem_count e (fst (its_decompose T')) = elem_count e (mol_of_host host)) /\
+  total_charge (fst (its_decompose T')) = total_charge (mol_of_host host) /\
+  (forall a b : N, In a (node_ids host) -> In b (node_ids host) -> bondG T' a b = adj host a b) /\
+  (balancedb rc = true ->
+     (forall e : N, elem_count e (fst (its_decompose T')) = elem_count e (snd (its_decompose T'))) /\
+     total_charge (fst (its_decompose T')) = total_charge (snd (its_decompose T'))).
+Proof. exact explicit_path. Qed.
+Print Assumptions C03_explicit_path.
+
+(** ** where the hypothesis comes from: a mapping accepted by the matcher's node / edge predicates on the rule's
+    reactant side ([match_okb]: the contract of SubgraphSearchEngine, see C06) is a valid match of the rule, provided
+    every bond of the rule joins two atoms of the rule *)
+Theorem C03_match_link : forall (host : hostg) (rc : its) (m : mapping),
+  edges_closedb rc = true -> match_okb host (fst (its_decompose rc)) m = true -> match_rcb host rc m = true.
+Proof. exact match_okb_rcb. Qed.
+Print Assumptions C03_match_link.
